@@ -706,6 +706,94 @@ static MIR_module_t last_mod;
 static buf_t mod_img[MAXMOD];
 static int buf_eq (const buf_t *x, const buf_t *y) { return x->n == y->n && (x->n == 0 || memcmp (x->p, y->p, x->n) == 0); }
 
+/* ---------------------------------------------------------------- reads into USED contexts (round 3, seeded C11-u2)
+   The round trip under test, MIR_read_with_func (W1), performed on ONE context that already has a history mixing the
+   operations of the library in every order: s = MIR_scan_string (T0), S = MIR_scan_string of a fixed text whose items leave
+   elements / strings / labels in the context-wide scratch areas, b = a module built through the API, r = MIR_read_with_func (W1),
+   w = MIR_write_with_func (bytes dropped), o = MIR_output.  The modules the final read appends must print exactly as the
+   context under test prints (T0); then the context is finished.  UR=ok | <history>:ERR:<msg> | <history>:<hex of the text>. */
+static MIR_context_t u;
+static const char *hist_text
+  = "hs: module\nexport hf\nhp: proto i64, i64:a\nhb: bss 16\nhx: i32 100, 200\nhy: d 1.5, 2.5\nhf: func i64, i64:a\n"
+    "local i64:r\nL1:\nadd r, a, 1\nbgt L1, r, 1000\nret r\nendfunc\nhz: u8 1, 2, 3, 4, 5\nendmodule\n";
+static int dropper (MIR_context_t ctx, uint8_t b) { return 1; }
+static void hist_op (int op) {
+  switch (op) {
+  case 's': MIR_scan_string (u, t0); break;
+  case 'S': MIR_scan_string (u, hist_text); break;
+  case 'r': rbuf = &w1; rpos = 0; MIR_read_with_func (u, reader); break;
+  case 'w': MIR_write_with_func (u, dropper); break;
+  case 'o': { size_t n; free (text_of (u, &n)); break; }
+  case 'b': {
+    int16_t v[3] = {-7, 8, 9};
+    MIR_type_t rt = MIR_T_I64;
+    MIR_item_t fi;
+    MIR_new_module (u, "hbm");
+    MIR_new_data (u, "q", MIR_T_I16, 3, v);
+    MIR_new_string_data (u, "qs", (MIR_str_t){6, "hello"});
+    MIR_new_bss (u, "qb", 24);
+    fi = MIR_new_func (u, "hg", 1, &rt, 0);
+    MIR_append_insn (u, fi, MIR_new_ret_insn (u, 1, MIR_new_int_op (u, 7)));
+    MIR_finish_func (u);
+    MIR_finish_module (u);
+    break;
+  }
+  }
+}
+static char *text_of_last (MIR_context_t ctx, size_t k, size_t *len) {
+  char *p = NULL;
+  FILE *f = open_memstream (&p, len);
+  DLIST (MIR_module_t) *l = MIR_get_module_list (ctx);
+  size_t n = DLIST_LENGTH (MIR_module_t, *l), i = 0;
+  for (MIR_module_t m = DLIST_HEAD (MIR_module_t, *l); m != NULL; m = DLIST_NEXT (MIR_module_t, m), i++)
+    if (i + k >= n) MIR_output_module (ctx, f, m);
+  fclose (f);
+  return p;
+}
+static const char *volatile hist_cur;
+static volatile int hist_final, hist_run;
+static char hist_hash[8];
+static void used_read (FILE *out, const char *desc) {
+  static const char *hists[] = {"S", "s", "b", "Sr", "rS", "bS", "Sb", "sw", "Swb", "rbS", "SoS", "bws", "Srw", hist_hash, NULL};
+  static volatile int hi;
+  static int bad;
+  uint32_t h = 2166136261u;
+  size_t k = DLIST_LENGTH (MIR_module_t, *MIR_get_module_list (a));
+  for (const char *p = desc; *p; p++) h = (h ^ (uint8_t) *p) * 16777619u;
+  for (int i = 0, n = 3 + h % 4; i < n; i++, h /= 7) hist_hash[i] = "sSbrwo"[(h >> 3) % 6], hist_hash[i + 1] = 0;
+  bad = 0;
+  hist_run = 0;
+  for (hi = 0; hists[hi] != NULL && !bad; hi++) {
+    hist_cur = hists[hi];
+    hist_final = 0;
+    u = MIR_init ();
+    MIR_set_error_func (u, err_func);
+    if (setjmp (err_jmp)) {
+      if (!hist_final) continue; /* an operation of the history itself is refused (text the scanner rejects): not this check */
+      fprintf (out, "|UR=%s:ERR:%s", hist_cur, err_msg);
+      bad = 1;
+      continue;
+    }
+    for (const char *p = hist_cur; *p; p++) hist_op (*p);
+    hist_final = 1;
+    hist_op ('r');
+    hist_run++;
+    {
+      size_t n;
+      char *t = text_of_last (u, k, &n);
+      if (n != n0 || memcmp (t, t0, n0) != 0) {
+        fprintf (out, "|UR=%s:", hist_cur);
+        put_hex (out, (const uint8_t *) t, n < 6000 ? n : 6000);
+        bad = 1;
+      }
+      free (t);
+    }
+    MIR_finish (u);
+  }
+  if (!bad) fprintf (out, "|UR=ok");
+  fprintf (out, "|URN=%d", (int) hist_run);
+}
+
 /* "rawscan HEX": MIR_scan_string on arbitrary (possibly erroneous) text: an error list is fine, a crash is not */
 static void run_rawscan (FILE *out, const char *hex) {
   size_t n = strlen (hex) / 2;
@@ -732,6 +820,8 @@ static void run_case (FILE *out, char *desc) {
     run_rawscan (out, desc + 8);
     return;
   }
+  static char *desc_copy; /* build () cuts the description up */
+  desc_copy = strdup (desc);
   t0 = t2 = s0 = NULL;
   n0 = n2 = ns0 = 0;
   have_w1 = rb_ok = sc_ok = 0;
@@ -940,6 +1030,11 @@ static void run_case (FILE *out, char *desc) {
       emit_text (out, "TM", tg, ng, t0, n0);
       label_identity (out, "M", g);
     }
+    fflush (out);
+  }
+  if (rb_ok && t0 != NULL) {
+    STAGE ("used-read");
+    used_read (out, desc_copy);
     fflush (out);
   }
   if (want_exec) {
